@@ -1,10 +1,15 @@
 import Audit.Tool
 import FluteModel.Props.C04
 import FluteModel.Props.C04Wire
+import FluteModel.Props.C04WireAbs
 import FluteModel.Props.C04Obj
+import FluteModel.Props.C04Multi
+import FluteModel.Props.C04Whole
 import FluteModel.Props.Ring
--- parser totality, engine `wire`, namespace Flute.Props.C04.Wire
--- object-level totality, engine `orecv`, namespace Flute.Props.C04.Obj
+-- session level (engine `recv`): Flute.Props.C04; parser totality + abstraction to the receiver's packet records
+-- (engine `wire`): Flute.Props.C04.Wire; object level (engine `orecv`): Flute.Props.C04.Obj; MultiReceiver entry point
+-- (engine `tsi`): Flute.Props.C04.Multi; the whole call parse -> Receiver.push -> ObjectReceiver -> BlockWriter -> ring
+-- composed from those: Flute.Props.C04.Whole
 #audit_ns Flute.Props.C04
 -- ring buffer + decompression drain loop (supports the "no hang / no panic" clause: D15, D32)
 #audit_ns Flute.Props.Ring
